@@ -98,9 +98,10 @@ class Multiplication:
     processed_circulars = set()
     for l in segment.dovetails + segment.containments:
       if l.is_circular():
-        if l not in processed_circulars:
+        # (by identity: lines with the same content compare equal)
+        if id(l) not in processed_circulars:
           self.__divide_counts(l, factor)
-          processed_circulars.add(l)
+          processed_circulars.add(id(l))
       else:
         self.__divide_counts(l, factor)
 
